@@ -1059,10 +1059,14 @@ func (c *Client) resend(conn net.Conn, seqNoOffset uint, seq *seq, space uint) e
 		}
 
 		if seqNo < seq.submitN && packet[0]>>4 == typePUBLISH {
-			packet[0] |= dupeFlag
+			// The value belongs to the Persistence. Setting the flag
+			// in place would break the checksum of a record which
+			// the Persistence keeps in memory and hands out as is.
+			head := []byte{packet[0] | dupeFlag}
+			err = writeBuffersTo(conn, net.Buffers{head, packet[1:]}, c.PauseTimeout)
+		} else {
+			err = writeTo(conn, packet, c.PauseTimeout)
 		}
-
-		err = writeTo(conn, packet, c.PauseTimeout)
 		if err != nil {
 			return err
 		}
